@@ -7,6 +7,7 @@ by first visit from the root (depth-first, children in item order).
 from __future__ import annotations
 
 import collections
+import json
 import dataclasses
 import typing
 
@@ -309,6 +310,40 @@ def project(root):
   p = Projector()
   r = p.val(root)
   return p.heap, r
+
+
+def canon_sorted(heap, root=1):
+  """Canonical form of an abstract heap modulo dict insertion order (dict items sorted by key id)."""
+  out, ids = [], {}
+
+  def keyorder(it):
+    k = it['key']
+    return (0, k, '') if isinstance(k, int) else (1, 0, json.dumps(k))
+
+  def visit(i):
+    if i in ids:
+      return -ids[i]
+    idx = len(out) + 1
+    ids[i] = idx
+    o = heap[i - 1]
+    node = {'k': o['k'], 'fn': o['fn'], 'items': []}
+    out.append(node)
+    items = sorted(o['items'], key=keyorder) if o['k'] == 'dict' else o['items']
+    for it in items:
+      v = it['val']
+      node['items'].append({'key': it['key'], 'val': visit(-v) if isinstance(v, int) and v < 0 else v,
+                            'tg': it.get('tg', 0)})
+    return -idx
+
+  if heap:
+    visit(root)
+  return out
+
+
+def project_sorted(root):
+  """project() modulo dict insertion order."""
+  h, r = project(root)
+  return (canon_sorted(h) if isinstance(r, int) and r < 0 else h), r
 
 
 def strip_tags(heap):
